@@ -251,6 +251,23 @@ pub fn drive_corpus(corpus: &str, seed: u64, thorough: bool, w: &mut NdWriter) -
       }
     }
   }
+  // code nested far deeper than any corpus site: a sum of 70 operands (left-nested 69 levels), calls nested 40 deep
+  {
+    let sum = (0..70).map(|i| format!("a{i}")).collect::<Vec<_>>().join(" + ");
+    let mut calls = String::from("x, y");
+    for _ in 0..40 {
+      calls = format!("f({calls})");
+    }
+    for (k, (l, src, text)) in [(SupportLang::JavaScript, format!("total = {sum};\n"), sum.clone()), (SupportLang::Python, format!("{calls}\n"), calls.clone()),
+                                (SupportLang::Rust, format!("fn m() {{ let t = {sum}; }}\n"), sum.clone())].iter().enumerate() {
+      let g = l.ast_grep(src);
+      let Some(site) = all_nodes(&g).into_iter().filter(|n| n.text() == *text && n.is_named()).last() else { continue };
+      if let Some(r) = match_record(&format!("deep{k}#self"), *l, text, &site, json!({"mode": "cut", "holes": [], "tail": {"name": "", "ids": []}})) {
+        w.put(&r);
+        n_self += 1;
+      }
+    }
+  }
   // ... and nothing learnt about the KINDS of one grammar either (kind numbers mean other things in the next grammar): a
   // comment of one language is examined as a skippable node, then calls of another language with one more argument -
   // a number, a float, a string, a name - are tried against `foo(bar)` at every level
